@@ -5,6 +5,7 @@
    Definitions only; proofs live in Proofs/Set*.v.
    Each function mirrors the control flow of the Python function named in its comment. *)
 From DV Require Import Base.Prelude.
+From DV Require Model.TokM.   (* dns.ttl.from_text, read-only *)
 Open Scope Z_scope.
 
 (* exception codes.  Lib = raised on purpose by the library, Internal = raised by Python
@@ -675,6 +676,8 @@ Inductive rop :=
 | RFromList (d : nat) (n : option dname) (t : Z) (xs : list rdata)   (* from_rdata_list *)
 | RAdd (r : nat) (x : rdata) (ottl : option Z)
 | RUpdateTtl (r : nat) (t : Z)
+| RUpdateTtlText (r : nat) (s : list Z)                  (* update_ttl("1h30m"): dns.ttl.make -> from_text *)
+| RAddText (r : nat) (x : rdata) (s : list Z)            (* add(rd, "300") *)
 | RRemove (r : nat) (x : rdata)
 | RDiscard (r : nat) (x : rdata)
 | RPop (r : nat)
@@ -732,6 +735,33 @@ Definition rstep (st : list rds) (op : rop) : list rds * obs :=
       | Some s => match kd s with
                   | KImm => (st, E eTypeError)
                   | KRds | KRR => (set_nth st r (update_ttl s t), N)
+                  end
+      | None => bad st end
+  | RUpdateTtlText r txt =>
+      match nth_error st r with
+      | Some s => match kd s with
+                  | KImm => (st, E eTypeError)
+                  | KRds | KRR =>
+                      (* ttl = dns.ttl.make(ttl): BadTTL before anything is touched *)
+                      match TokM.ttl_from_text txt with
+                      | Ok t => (set_nth st r (update_ttl s t), N)
+                      | Lib e => (st, E e)
+                      | Internal e => (st, E e)
+                      end
+                  end
+      | None => bad st end
+  | RAddText r x txt =>
+      match nth_error st r with
+      | Some s => match kd s with
+                  | KImm => (st, E eTypeError)
+                  | KRds | KRR =>
+                      (* the class/type check comes first, then update_ttl parses the text *)
+                      if negb (cls s =? rcls x) || negb (typ s =? rtyp x) then (st, E eIncompatibleTypes)
+                      else match TokM.ttl_from_text txt with
+                           | Ok t => upd st r (radd s x (Some t))
+                           | Lib e => (st, E e)
+                           | Internal e => (st, E e)
+                           end
                   end
       | None => bad st end
   | RRemove r x =>
@@ -1221,6 +1251,9 @@ Section Decode.
         match nat_of_obs r, rec_at x with Some r, Some x => Some (RContains r x) | _, _ => None end
     | L [I 20; r; I i] => match nat_of_obs r with Some r => Some (RGet r i) | None => None end
     | L [I 21; r; I i] => match nat_of_obs r with Some r => Some (RDelItem r i) | None => None end
+    | L [I 23; r; B txt] => match nat_of_obs r with Some r => Some (RUpdateTtlText r txt) | None => None end
+    | L [I 24; r; x; B txt] =>
+        match nat_of_obs r, rec_at x with Some r, Some x => Some (RAddText r x txt) | _, _ => None end
     | L [I 22; d; n; I t; L xs] =>
         match nat_of_obs d, (match n with N => Some None
                                      | _ => match name_of_obs n with Some nm => Some (Some nm) | None => None end
